@@ -256,9 +256,20 @@ def check_budget(ctx, F):
             site = "BitWriteStreamT::BitWriteStreamT"
             calls = [(F.fn(c)["name"], F.fn(c).get("cls")) for c in b.get("calls", ())]
             ctx.instance("C08.budget", site, {"function": site, "loc": F.floc(fid), "calls": calls})
-            if ("clear", "StreamBufferT") not in calls:
+            if not clears_on_every_path(F, fid, "_buffer"):
                 ctx.violation("C08.budget", site + "/clear", "%s (%s)" % (site, F.floc(fid)),
                               "the write stream does not clear its buffer: write() ORs bits in, so a re-used buffer yields a different snapshot", {})
+
+
+def clears_on_every_path(F, fid, member):
+    """every path through the constructor `fid` calls clear() / reset() / fill() on this-><member> (a conditional clear does not count)"""
+    ps = sym_paths(F, fid, 1)
+    if not ps:
+        return False
+    for p in ps:
+        if not any(ev[0] == "call" and ev[2] is not None and F.fn(ev[2])["name"] in ("clear", "reset", "fill") and (ev[3] or "").endswith("." + member) for ev in p):
+            return False
+    return True
 
 
 def check_save_const(ctx, F):
